@@ -21,6 +21,8 @@ VARIANTS = {
     "tsan": dict(cc="gcc", flags=["-O1", "-g", "-fsanitize=thread", "-DENABLE_THREADING", "-DNDEBUG",
                                   "-pthread"], lib_defs=[], xalloc=False),
     "plain": dict(cc="gcc", flags=["-O1", "-g"], lib_defs=ALLOC_RENAMES, xalloc=True),
+    # line-coverage build (tools/coverage.py): how much of the anchor files the generated inputs reach
+    "cov": dict(cc="gcc", flags=["-O0", "-g", "--coverage"], lib_defs=ALLOC_RENAMES, xalloc=True),
 }
 
 
